@@ -108,6 +108,7 @@ def install_exclusions(w, ctx, prop):
                       ("kill:holds_mgmt_lock", "holds_mgmt_lock"), ("kill:holds_rlock", "holds_rlock")):
         if name in ex:
             veto_tags[tag] = name
+    w.mgmt_probe_atomic = "kill:holds_mgmt_lock" in ex
     rlock_sd = "kill:holds_queue_lock_during_shutdown" in ex
     if veto_tags or rlock_sd:
         def kill_veto(p, t):
